@@ -7,7 +7,7 @@ CONSTANTS
   AliasMenu <- AlNone
   LimitMenu <- Lim01
   LookupExtra <- NoExtra
-  DupLast = FALSE
+  DupAt = 0
   Hist = FALSE
 INVARIANTS RWExcl ReadersCounted WriterCounted PublishedComplete Linearizable LookupLinearizable
 PROPERTIES TreeStableUnderRLock
